@@ -792,7 +792,7 @@ class BNAddCpds(Contract):
                 "one-position-per-variable": self.inj(ex, st, g.fields["cpds"]),
                 "graph-untouched": graph_unchanged(g, old)}
 
-    # loop 1: for prev_cpd_index in range(len(self.cpds))   (loop 0, over the argument tuple, is unrolled)
+    # loop 1: for prev_cpd_index in range(len(self.cpds))  /  for prev_cpd_index, prev_cpd in enumerate(self.cpds)   (loop 0, over the argument tuple, is unrolled)
     def inv1(self, ex, st, args, old, ghost):
         g = args["self"]
         L = g.fields["cpds"]
@@ -801,6 +801,16 @@ class BNAddCpds(Contract):
         c = self.new(st)
         n0 = z3.Int("n_cpds")   # the length at entry: the list is only written immediately before `break`
         i, y = fresh("i", z3.IntSort()), fresh("y", Opaque)
+        dom = done.sort().domain()
+        if dom != z3.IntSort():
+            # the same loop written `for prev_cpd_index, prev_cpd in enumerate(self.cpds)`: the elements are the pairs (i, cpds[i])
+            mk, e = dom.constructor(0), fresh("e", Opaque)
+            return z3.And(graph_unchanged(g, old), z3.ForAll([y], L.mem[y] == old["cpds"][y]), self.inj(ex, st, L), L.len_z == n0,
+                          z3.ForAll([i, e], ghost["iter"][mk(i, e)] == z3.And(0 <= i, i < n0, e == at(i))),
+                          z3.ForAll([i, e], z3.Implies(done[mk(i, e)], z3.And(0 <= i, i < n0, e == at(i), self.var(e) != self.var(c)))),
+                          # the same two facts instantiated at e = at(i) (consequences; stated so that the solver has the pair terms)
+                          z3.ForAll([i], ghost["iter"][mk(i, at(i))] == z3.And(0 <= i, i < n0), patterns=[at(i)]),
+                          z3.ForAll([i], z3.Implies(done[mk(i, at(i))], self.var(at(i)) != self.var(c)), patterns=[at(i)]))
         return z3.And(graph_unchanged(g, old), z3.ForAll([y], L.mem[y] == old["cpds"][y]), self.inj(ex, st, L), L.len_z == n0,
                       z3.ForAll([i], ghost["iter"][i] == z3.And(0 <= i, i < n0)),
                       z3.ForAll([i], z3.Implies(done[i], z3.And(0 <= i, i < n0, self.var(at(i)) != self.var(c)))))
